@@ -313,3 +313,33 @@ pub fn str_env(x: &str, depth: usize, customs: &[fn(String) -> String]) -> Value
         "upper": tbl(&|s| s.to_uppercase()),
     })
 }
+
+// ---------------------------------------------------------------- watchdog
+
+/// Run `f` on its own thread; if it does not finish within `ms` milliseconds the outcome is
+/// {"k":"hang"} (the thread is leaked: a non-terminating generator is data, not a tool failure).
+pub fn with_timeout<F: FnOnce() -> Value + Send + 'static>(ms: u64, f: F) -> Value {
+    let (tx, rx) = std::sync::mpsc::channel();
+    std::thread::spawn(move || {
+        let v = guard(f);
+        let _ = tx.send(v);
+    });
+    match rx.recv_timeout(std::time::Duration::from_millis(ms)) {
+        Ok(v) => v,
+        Err(_) => json!({"k": "hang"}),
+    }
+}
+
+/// contiguous runs [[lo, hi], ..] of a sorted, deduplicated list of integers given as i128
+pub fn runs_i128(mut xs: Vec<i128>) -> Vec<(i128, i128)> {
+    xs.sort();
+    xs.dedup();
+    let mut out: Vec<(i128, i128)> = Vec::new();
+    for x in xs {
+        match out.last_mut() {
+            Some((_, hi)) if *hi + 1 == x => *hi = x,
+            _ => out.push((x, x)),
+        }
+    }
+    out
+}
